@@ -165,9 +165,14 @@ def run(ctx):
         x = ctx.rng.choice([1, 1, 2, n - 1, n - 1, n - 2, 3, n - 3]); alt = ctx.rng.choice(ALTS)
         a_ = (1 - cl) / 2 if alt == "two-sided" else 1 - cl
         xkw = {}
-        if ctx.rng.random() < 0.4:      # an explicit start far from the limit together with a moderate iteration budget (enough for the solver itself)
-            xkw = {"p": ctx.rng.choice([0.0, 0.5, 1.0]), "maxiter": ctx.rng.choice([30, 40, 60])}; ctx.count("far-start-with-moderate-maxiter")
+        if ctx.rng.random() < 0.4:      # an explicit start far from the limit together with an iteration budget
+            xkw = {"p": ctx.rng.choice([0.0, 0.5, 1.0]), "maxiter": ctx.rng.choice([30, 40, 60, 150])}; ctx.count("far-start-with-maxiter")
         r = guarded(utils.binom_conf_interval, n, x, cl, alt, **xkw)
+        if r[0] != "ok" and r[1] == "RuntimeError" and xkw.get("maxiter", 10**9) <= 100:
+            # from a far start the bracket handed to Brent's method is wide and 30 - 60 iterations are not always enough (on the unchanged
+            # tree about one such call in a hundred gives up, e.g. n = 1000, x = 997, cl = 1 - 1e-9, p = 0.5, maxiter = 30): a loud failure
+            # within the caller's own budget is the solver's documented behaviour, an unconverged limit handed back would not be
+            ctx.count("solver-gave-up-loudly-within-the-callers-budget"); continue
         want_lo = 0.0 if alt == "upper" else (-math.expm1(math.log1p(-a_) / n) if x == 1 else float(_beta.ppf(a_, x, n - x + 1)))
         want_hi = 1.0 if alt == "lower" else (math.exp(math.log1p(-a_) / n) if x == n - 1 else float(_beta.ppf(1 - a_, x + 1, n - x)))
         ctx.case(("extreme-limits", n, x, cl, alt), True); ctx.count("limits-next-to-0-or-1")
